@@ -116,8 +116,11 @@ func enumerate(fileLen int, regions []region, footerVersionOff int, k int, seed 
 		for o := start; o < rg.off+rg.len; o += step {
 			h := hashOff(seed, o)
 			out = append(out, corruption{pattern: "bitflip", off: o, n: 1, arg: h & 7, region: rg.kind})
-			if thorough {
-				out = append(out, corruption{pattern: "bitflip", off: o, n: 1, arg: (h&7 + 1 + (h>>3)%7) & 7, region: rg.kind})
+			if thorough && (rg.kind == "footer" || strings.HasSuffix(rg.kind, "-trailer")) {
+				// every bit of footer and block trailers in the thorough tier
+				for b := uint64(1); b < 8; b++ {
+					out = append(out, corruption{pattern: "bitflip", off: o, n: 1, arg: (h&7 + b) & 7, region: rg.kind})
+				}
 			}
 			out = append(out, corruption{pattern: "zero", off: o, n: 1, region: rg.kind})
 			out = append(out, corruption{pattern: "ff", off: o, n: 1, region: rg.kind})
@@ -441,48 +444,131 @@ func runFile(r *vcommon.Report, fi int, rng *rand.Rand, fut *fileUnderTest, base
 	}
 	cs := enumerate(len(fut.data), fut.regions, fut.verOff, k, rng.Uint64(), thorough)
 	r.Count("corruptions_enumerated", int64(len(cs)))
-	// Per-file budget: byte-level corruptions of index/data/value regions are
-	// thinned deterministically when a file would exceed it (footer,
-	// metaindex, properties, trailers and all block-level patterns are kept).
-	budget := 3000
+	// Per-file CPU budget. The dominant cost of a corrupted read is pebble's
+	// own single-bit-flip search on every checksum mismatch, which is
+	// quadratic in the block length and is paid by every operation that
+	// touches the block. Each corruption gets a deterministic cost estimate
+	// (a function of region kind and block length only, never of measured
+	// time); when a file exceeds its budget the expensive corruptions are
+	// thinned by a fixed stride, then the cheap ones if still needed.
+	budget := 9000.0 // estimated milliseconds of CPU per file
 	if thorough {
-		budget = 16000
+		budget = 60000
 	}
-	if len(cs) > budget {
-		keepAlways := func(c corruption) bool {
-			switch c.pattern {
-			case "bitflip", "zero", "ff", "garbage8":
-				return c.region == "footer" || c.region == "metaindex" || c.region == "properties" || strings.HasSuffix(c.region, "-trailer") ||
-					c.region == "blobindex" || c.region == "blobprops"
-			}
-			return true
-		}
-		nKeep := 0
-		for _, c := range cs {
-			if keepAlways(c) {
-				nKeep++
+	if fut.kind == "blob" {
+		budget /= 2
+	}
+	blockLenAt := map[int]int{}
+	for _, rg := range fut.regions {
+		if rg.blockLen > 0 {
+			for _, o := range []int{rg.off, rg.blockOff} {
+				blockLenAt[o] = rg.blockLen
 			}
 		}
-		rest := len(cs) - nKeep
-		want := max(budget-nKeep, budget/4)
-		m := (rest + want - 1) / want
+	}
+	regionOf := func(off int) (string, int) {
+		for _, rg := range fut.regions {
+			if off >= rg.off && off < rg.off+rg.len {
+				return rg.kind, rg.blockLen
+			}
+		}
+		return "", 0
+	}
+	readCost := func(l int) float64 { // ms for one failing block read of length l
+		return 8 * float64(l) * (150 + float64(l)/3) / 1e6
+	}
+	opsTouching := func(kind string) float64 {
+		switch strings.TrimSuffix(kind, "-trailer") {
+		case "footer", "metaindex", "properties", "file":
+			return 1
+		case "index", "topindex":
+			return 14
+		case "data":
+			return 11
+		case "value", "valueindex":
+			return 8
+		case "blobvalue", "blobindex":
+			return 9
+		default:
+			return 2
+		}
+	}
+	baseMs := 1.5 + 0.02*float64(fut.nPoints)
+	if fut.kind == "blob" {
+		baseMs = 3 + 0.15*float64(fut.nPoints)
+	}
+	weight := func(c corruption) float64 {
+		switch c.pattern {
+		case "truncate", "version-set":
+			return baseMs
+		case "swap", "swap-prefix":
+			return baseMs + 14*(readCost(blockLenAt[c.off])+readCost(blockLenAt[c.off2]))
+		case "zero-block", "zero-payload":
+			return baseMs + opsTouching(c.region)*readCost(blockLenAt[c.off])
+		}
+		kind, bl := regionOf(c.off)
+		if c.pattern == "garbage8" {
+			if k2, bl2 := regionOf(c.off + 7); bl2 > bl {
+				kind, bl = k2, bl2
+			}
+		}
+		return baseMs + opsTouching(kind)*readCost(bl)
+	}
+	total := 0.0
+	ws := make([]float64, len(cs))
+	for i, c := range cs {
+		ws[i] = weight(c)
+		total += ws[i]
+	}
+	r.Count("estimated_cost_ms_enumerated", int64(total))
+	if total > budget {
+		const heavyMs = 8.0
+		var heavySum, lightSum float64
+		for _, w := range ws {
+			if w > heavyMs {
+				heavySum += w
+			} else {
+				lightSum += w
+			}
+		}
+		lightBudget := min(lightSum, 0.6*budget)
+		heavyBudget := max(budget-lightBudget, 0.25*budget)
+		mHeavy, mLight := 1, 1
+		if heavySum > heavyBudget {
+			mHeavy = int(heavySum/heavyBudget) + 1
+		}
+		if lightSum > lightBudget {
+			mLight = int(lightSum/lightBudget) + 1
+		}
 		thinned := cs[:0:0]
-		j := 0
-		for _, c := range cs {
-			if keepAlways(c) {
-				thinned = append(thinned, c)
-				continue
+		jh, jl := 0, 0
+		for i, c := range cs {
+			if ws[i] > heavyMs {
+				// stride over single corruptions (not offsets) so that the
+				// patterns kept rotate over the offsets
+				if jh%mHeavy == 0 {
+					thinned = append(thinned, c)
+				}
+				jh++
+			} else {
+				if jl%mLight == 0 {
+					thinned = append(thinned, c)
+				}
+				jl++
 			}
-			// keep groups of 4 consecutive entries (the patterns of one offset) together
-			if (j/4)%m == 0 {
-				thinned = append(thinned, c)
-			}
-			j++
 		}
 		r.Count("corruptions_thinned_away", int64(len(cs)-len(thinned)))
 		r.Count("files_thinned", 1)
+		if mHeavy > 1 {
+			r.Count("files_heavy_blocks_thinned", 1)
+		}
 		cs = thinned
 	}
+	est := 0.0
+	for _, c := range cs {
+		est += weight(c)
+	}
+	r.Count("estimated_cost_ms_executed", int64(est))
 	r.Count("files_"+fut.kind, 1)
 	r.Count("file_bytes", int64(len(fut.data)))
 	r.Max("max_file_bytes", int64(len(fut.data)))
@@ -497,8 +583,8 @@ func runFile(r *vcommon.Report, fi int, rng *rand.Rand, fut *fileUnderTest, base
 		r.Count("files_read_through_block_cache", 1)
 	}
 	calib := os.Getenv("C27_CALIBRATE") != ""
-	if calib && len(cs) > 240 {
-		step := len(cs) / 240
+	if calib && len(cs) > 120 {
+		step := len(cs) / 120
 		var t []corruption
 		for i := 0; i < len(cs); i += step {
 			t = append(t, cs[i])
@@ -589,7 +675,7 @@ func TestVerifC27(t *testing.T) {
 		"no-op corruptions are skipped; distinct = (config class, region kind, pattern, outcome, first failing op)")
 	r.Assume("corruptions that leave a 32-bit checksum valid by chance (2^-32) are not sought")
 	r.Assume("the blob file referenced by a corrupted table is pristine (blob files are corrupted in part 'blobs')")
-	nfiles := vcommon.Scale(24, 200)
+	nfiles := vcommon.Scale(24, 150)
 	r.Cases(nfiles, func(fi int, rng *rand.Rand) {
 		spec := genSpec(rng, fi, vcommon.Thorough())
 		bt, err := buildTable(rng, spec)
@@ -666,7 +752,7 @@ func TestVerifC27Blob(t *testing.T) {
 	r.Rule("case = one corruption (same patterns as part 'tables') of one generated blob file (formats blobV1/blobV2, crc32c/xxhash64, six compression profiles, " +
 		"1..120 values, forced flushes) followed by open + ReadProperties + fetch of every value (forward, backward, strided with buffer pool) + Layout; " +
 		"offsets: every byte of footer/index/properties blocks and of each block trailer, every k-th byte of value blocks; distinct = (config, region kind, pattern, outcome, first failing op)")
-	nfiles := vcommon.Scale(8, 60)
+	nfiles := vcommon.Scale(8, 48)
 	r.Cases(nfiles, func(fi int, rng *rand.Rand) {
 		spec := genBlobSpec(rng, fi)
 		bb, err := buildBlob(rng, spec)
